@@ -1,4 +1,5 @@
 import SafeNet.Proofs.ValidateData
+import SafeNet.Proofs.ValidateWorld
 /-!
 # C03 — new data is stored from a client only with a valid payment for that exact data
 
@@ -121,6 +122,102 @@ theorem rejected_stores_nothing (d : Delivery) (s : Store) (h : (validate d s).1
   rw [validate_trace]
   exact no_W_of_not_hasW (by simpa using ht)
 
+/-! ## Every schedule of concurrent validations -/
+
+theorem paidInFull_of_paidB {d : Delivery} (h : paidB d = true) : PaidInFull d := by
+  unfold paidB at h
+  simp only [Bool.and_eq_true] at h
+  obtain ⟨hk, hp⟩ := h
+  cases hd : d.pay with
+  | none => rw [hd] at hp; simp at hp
+  | some p =>
+    rw [hd] at hp
+    simp only [PayVec.all, Bool.and_eq_true] at hp
+    exact ⟨hk, p, hd, hp.1.1.1.1.1, hp.1.1.1.1.2, hp.1.1.1.2, hp.1.1.2, hp.1.2, hp.2⟩
+
+/-- **Under every schedule** (any number of validations in flight at once, every store read served at any
+later time, any interleaving of their steps — `World.run` over an arbitrary action list): a key the node did
+not hold initially and holds afterwards is the key of a validation that was actually started and that was
+either a replication delivery or a client upload with all six payment conditions.  In particular no
+interleaving of unpaid client uploads (which are accepted only as updates of held keys) can create a key. -/
+theorem any_schedule_new_key_paid (s0 : Store) (acts : List Act) (k : Nat)
+    (hnew : s0.get k = none) (hheld : (World.run ⟨s0, []⟩ acts).store.get k ≠ none) :
+    ∃ d ∈ startedBy ⟨s0, []⟩ acts, rwKey d = k ∧ (d.client = true → PaidInFull d) := by
+  rcases any_schedule_held_is_justified s0 acts k hheld with h | ⟨d, hd, hk, _, hl⟩
+  · exact absurd hnew h
+  · refine ⟨d, hd, hk, fun hc => ?_⟩
+    rcases hl with hl | hl
+    · rw [hc] at hl; cases hl
+    · exact paidInFull_of_paidB hl
+
+/-- Corollary: if every started validation is an unpaid client upload, the set of held keys never grows,
+whatever the schedule. -/
+theorem any_schedule_unpaid_creates_nothing (s0 : Store) (acts : List Act)
+    (hall : ∀ d ∈ startedBy ⟨s0, []⟩ acts, d.client = true ∧ ¬ PaidInFull d) (k : Nat)
+    (hnew : s0.get k = none) : (World.run ⟨s0, []⟩ acts).store.get k = none := by
+  by_cases h : (World.run ⟨s0, []⟩ acts).store.get k = none
+  · exact h
+  · obtain ⟨d, hd, _, hp⟩ := any_schedule_new_key_paid s0 acts k hnew h
+    exact absurd (hp (hall d hd).1) (hall d hd).2
+
+/-! ## The close set: "all payees are peers the node knows as close" -/
+
+/-- the close set is read off the source as `once(self).chain(peers).take(K_VALUE)`; it holds at most `K_VALUE`
+entries, this node first, and no routing-table peer of distance rank ≥ `K_VALUE − 1` -/
+theorem close_set_bounded :
+    closeCutAfterChain = true ∧
+    ∀ ps : List Nat, (closeSet ps).length ≤ kValue ∧ (closeSet ps).head? = some 0 ∧
+      ∀ i (h : i < ps.length), ps.Nodup → 0 ∉ ps → kValue - 1 ≤ i → ps[i] ∉ closeSet ps := by
+  refine ⟨by decide, ?_⟩
+  intro ps
+  have hk : kValue = 19 + 1 := by decide
+  have hc : closeSet ps = 0 :: ps.take 19 := by
+    have e : closeCutAfterChain = true := by decide
+    simp [closeSet, e, hk, List.take_succ_cons]
+  refine ⟨?_, by rw [hc]; rfl, ?_⟩
+  · rw [hc, hk]; simp [List.length_take]; omega
+  · intro i h hnd h0 hi
+    rw [hc]
+    intro hm
+    rcases List.mem_cons.mp hm with h1 | h1
+    · exact h0 (h1 ▸ List.getElem_mem h)
+    · rw [List.mem_take_iff_getElem] at h1
+      obtain ⟨j, hj, hje⟩ := h1
+      have hjl : j < ps.length := by omega
+      have := (List.Nodup.getElem_inj_iff hnd (hi := hjl) (hj := h)).mp hje
+      rw [hk] at hi
+      omega
+
+/-- **A payee beyond the node's `K_VALUE` closest known peers makes the payment incomplete**: with the close
+list the driver serves, a proof naming the routing-table peer of distance rank ≥ `K_VALUE − 1` is not paid in
+full, hence (by `any_failure_rejects`) a new address is rejected and nothing is stored. -/
+theorem payee_beyond_k_not_paid (d : Delivery) (ps : List Nat) (quotes : List QuoteD) (q : QuoteD) (i : Nat)
+    (h : i < ps.length) (hnd : ps.Nodup) (h0 : 0 ∉ ps) (hi : kValue - 1 ≤ i)
+    (hpay : d.pay = some ⟨quotes, closeSet ps⟩) (hq : q ∈ quotes) (hp : q.payee = ps[i]) (hdec : undec q = false) :
+    ¬ PaidInFull d := by
+  rintro ⟨_, p, hp', _, _, hclose, _⟩
+  rw [hpay] at hp'
+  injection hp' with hp'
+  subst hp'
+  simp only [vecOf, List.all_eq_true, Bool.or_eq_true] at hclose
+  have := hclose q hq
+  rw [hdec] at this
+  simp only [Bool.false_eq_true, false_or, List.contains_eq_mem, decide_eq_true_eq] at this
+  rw [hp] at this
+  exact (close_set_bounded.2 ps).2.2 i h hnd h0 hi this
+
+/-- a quote whose claimed peer id does not decode cannot be signature-checked: the proof is never paid in full -/
+theorem undecodable_id_not_paid (d : Delivery) (p : PayD) (q : QuoteD)
+    (hpay : d.pay = some p) (hq : q ∈ p.quotes) (hu : undec q = true) : ¬ PaidInFull d := by
+  rintro ⟨_, p', hp', hsigs, _⟩
+  rw [hpay] at hp'
+  injection hp' with hp'
+  subst hp'
+  simp only [vecOf, List.all_eq_true, Bool.and_eq_true, Bool.not_eq_eq_eq_not, Bool.not_true] at hsigs
+  have := (hsigs q hq).1.1
+  rw [hu] at this
+  cases this
+
 /-- The library functions the payment checks delegate to have the shape the model assumes (read off
 `ant-evm/src/data_payments.rs` and `evmlib/.../payment_vault/mod.rs` by the translator): `verify_for` checks
 payee membership and every signature, a proof is expired if any quote is, a quote expires strictly after
@@ -142,11 +239,23 @@ example : (validate ⟨true, .chunkp, 0, .chunk 0, some ⟨[q 0 true false, q 1 
     .payWrongContent := by decide
 example : (validate ⟨true, .chunkp, 0, .chunk 0, some ⟨[q 0 true true, q 1 false true, q 2 true true], [0, 1, 2]⟩⟩ []).1 =
     .payExpired := by decide
+/-- an unsigned quote paying an undecodable id next to the node's genuine quote -/
+example : (validate ⟨true, .chunkp, 0, .chunk 0, some ⟨[q 0 true true, ⟨999, 4, false, true, true, true, 1⟩, ⟨999, 4, false, true, true, true, 1⟩], [0]⟩⟩ []).1 =
+    .payNotForUs := by decide
+example : closeSet (List.range' 1 25) = 0 :: List.range' 1 19 := by decide
 example : PaidInFull ⟨true, .chunkp, 0, .chunk 0, some goodPay⟩ :=
   ⟨rfl, goodPay, rfl, by decide, by decide, by decide, by decide, by decide, by decide⟩
 /-- an unpaid scratchpad update of a held pad is applied -/
 example : validate ⟨true, .pad, 1, .pad 0 4 true, none⟩ [(1, .pad 3 true)] =
     (.ok, [.H 1, .G 1, .W 1 (.pad 4 true)]) := by decide
+
+/-- two interleaved validations of one new chunk key: an unpaid client upload and a paid one; both read
+"not held" before either finishes; only the paid one puts -/
+example : (World.run ⟨[], []⟩ [.begin 0 ⟨true, .chunk, 0, .chunk 0, none⟩,
+      .begin 1 ⟨true, .chunkp, 0, .chunk 0, some goodPay⟩, .ans 1, .ans 0, .run 0, .run 1]).store = [(0, .chunk)] ∧
+    startedBy ⟨[], []⟩ [.begin 0 ⟨true, .chunk, 0, .chunk 0, none⟩,
+      .begin 1 ⟨true, .chunkp, 0, .chunk 0, some goodPay⟩, .ans 1, .ans 0, .run 0, .run 1] =
+      [⟨true, .chunk, 0, .chunk 0, none⟩, ⟨true, .chunkp, 0, .chunk 0, some goodPay⟩] := by decide
 
 end SafeNet.Props.C03
 
@@ -156,3 +265,8 @@ end SafeNet.Props.C03
 #print axioms SafeNet.Props.C03.existing_chunk_never_rewritten
 #print axioms SafeNet.Props.C03.rejected_stores_nothing
 #print axioms SafeNet.Props.C03.source_shape
+#print axioms SafeNet.Props.C03.close_set_bounded
+#print axioms SafeNet.Props.C03.payee_beyond_k_not_paid
+#print axioms SafeNet.Props.C03.undecodable_id_not_paid
+#print axioms SafeNet.Props.C03.any_schedule_new_key_paid
+#print axioms SafeNet.Props.C03.any_schedule_unpaid_creates_nothing
